@@ -177,6 +177,24 @@ def worker(kind: str, e: int, fresh_all: bool) -> Part:
         acks, up = w.feed(e, payload=e)
         viols = judge(kind, e2, e, True, acks, up, e, w.channel)
         record(w, e, None, viols, w.key())
+        if kind == "mgmt":
+            # a redundant start() on the running instance is documented as a no-op: the connection's count goes on
+            w.dm.start()
+            if w.key()[0] != e2:
+                part.viol("mgmt:redundant-start-changes-counter", f"expected={e2} before a second start() on the running instance, {w.key()[0]} after", {"kind": kind, "expected": e, "restart": "redundant"})
+            acks, up = w.feed(e2, payload=e2)
+            for sig, detail in judge(kind, e2, e2, True, acks, up, e2, w.channel):
+                part.viol(sig + ":after-redundant-start", detail, {"kind": kind, "expected": e, "restart": "redundant"})
+            # stop() + start() = the instance is reused for a new connection: its count starts at 0
+            w.dm.stop()
+            w.dm.start()
+            if w.key()[0] != 0:
+                part.viol("mgmt:counter-not-reset-on-new-connection", f"expected counter after stop()+start() is {w.key()[0]}", {"kind": kind, "expected": e, "restart": "stop-start"})
+            acks, up = w.feed(0, payload=0)
+            for sig, detail in judge(kind, 0, 0, True, acks, up, 0, w.channel):
+                part.viol(sig + ":after-stop-start", detail, {"kind": kind, "expected": e, "restart": "stop-start"})
+            part.transitions += 3
+            part.evaluations += 3
         if kind.startswith("tunnel"):
             # a server-initiated disconnect -> reconnect: the next connection starts at 0 again
             w.gw.send(DisconnectRequest(w.channel))
